@@ -24,6 +24,17 @@ ChildShapes ==
   \cup {<<ChExpr(Call("g1", rv))>> : rv \in RvKinds}
   \cup {<<ChExpr(Arrow(ArrLit(<<Lit(Num(1))>>)))>>, <<ChExpr(FnExpr(Lit(S(<<120>>))))>>,
         <<ChExpr(ObjLit(<< <<"default", Arrow(Lit(Num(1)))>>, <<"bar", Arrow(Ident("u1", FALSE, Num(7)))>> >>))>>,
+        \* parentheses around the single child are transparent
+        <<ChExpr(Wrap("paren", Arrow(ArrLit(<<Lit(Num(1))>>))))>>, <<ChExpr(Wrap("paren", FnExpr(Lit(S(<<120>>)))))>>,
+        <<ChExpr(Wrap("paren", ObjLit(<< <<"default", Arrow(Lit(Num(1)))>>, <<"bar", Arrow(Ident("u1", FALSE, Num(7)))>> >>)))>>,
+        <<ChExpr(Wrap("paren", Ident("cb", TRUE, FnR("fd", Arr(<<PVNode("pv3")>>)))))>>,
+        <<ChExpr(Wrap("paren", Ident("cb", TRUE, PVNode("pv1"))))>>,
+        <<ChExpr(Wrap("paren", Call("g1", Obj(<< <<"default", FnR("sd", Arr(<<S(<<100>>)>>))>> >>))))>>,
+        <<ChExpr(Wrap("paren", Call("g1", S(<<115>>))))>>,
+        \* TypeScript wrappers are expressions of their own (not an identifier / function child): default slot
+        <<ChExpr(Wrap("tsnonnull", Ident("cb", TRUE, FnR("fd", Arr(<<PVNode("pv3")>>)))))>>,
+        <<ChExpr(Wrap("tsas", Ident("cb", TRUE, PVNode("pv1"))))>>,
+        <<ChExpr(Wrap("tsas", Call("g1", S(<<115>>))))>>,
         <<ChText(<<"a">>)>>, <<ChElem(B)>>,
         <<ChElem(Elem(TagHtml("span"), <<Dir("kebab", <<"show">>, "", <<>>, AvExpr(Ident("sv", FALSE, Bool(TRUE))))>>, <<>>))>>,
         <<ChElem(Elem(TagHtml("i"), <<Dir("kebab", <<"foo">>, "", <<>>, AvExpr(Ident("dv", FALSE, Opq("vdv"))))>>, <<ChText(<<"a">>)>>))>>, <<ChExpr(Member("o1", "p", Opq("vo1p")))>>,
@@ -50,6 +61,8 @@ CaseSeq ==
   LET raw == SetToSeq(Raw) IN
   [i \in 1..Len(raw) |->
      [case |-> "C03-" \o ToString(i), prop |-> "C03", opts |-> raw[i].opts,
+      lang |-> IF \E j \in 1..Len(raw[i].children) : raw[i].children[j].k = "expr" /\ raw[i].children[j].e.k = "wrap"
+                                                       /\ raw[i].children[j].e.form \in {"tsnonnull", "tsas"} THEN "tsx" ELSE "jsx",
       items |-> << [k |-> "export_jsx", name |-> "s1", ctx |-> raw[i].ctx,
                     elem |-> Elem(raw[i].host, raw[i].vslots, raw[i].children)] >>]]
 
